@@ -92,7 +92,7 @@ visit_deps("main", deps, 0)
 return table.concat(log, "\n"), deps
 "#;
 
-pub const FORMS: usize = 10;
+pub const FORMS: usize = 12;
 
 fn edge_code(form: usize, spelling: &str, target: Kind) -> String {
     let s = spelling;
@@ -112,6 +112,14 @@ fn edge_code(form: usize, spelling: &str, target: Kind) -> String {
             }
         }
         8 => format!("for i = 1, 2 do\n    deps[#deps + 1] = {{ v = require(\"{s}\") }}\nend\n"),
+        // loop headers: start, limit and step of a numeric for, the iterator list of a generic for
+        10 => format!(
+            "for i = (require(\"{s}\") == 0 and 2 or 1), (require(\"{s}\") == 0 and 0 or 1), (require(\"{s}\") == 0 and -1 or 1) do\n    deps[#deps + 1] = {{ v = require(\"{s}\") }}\nend\nfor _, w in ipairs({{ {{ v = require(\"{s}\") }} }}) do\n    deps[#deps + 1] = w\nend\n"
+        ),
+        // conditions of if / while / repeat, a return inside a function, a table key and a method receiver
+        11 => format!(
+            "if require(\"{s}\") == 0 then deps = nil elseif require(\"{s}\") ~= 0 then deps[#deps + 1] = {{ v = require(\"{s}\") }} end\nwhile require(\"{s}\") == 0 do break end\nrepeat until require(\"{s}\") ~= 0\nlocal function get() return require(\"{s}\") end\ndeps[#deps + 1] = {{ v = get(), same = ({{ [tostring(require(\"{s}\") == get())] = true }})[\"true\"] }}\n"
+        ),
         _ => format!("local function load(...)\n    if ... then return require(\"{s}\") end\n    return nil\nend\ndeps[#deps + 1] = {{ v = load(true), same = load(true) == require(\"{s}\") }}\n"),
     }
 }
@@ -526,7 +534,7 @@ fn dag_programs(tier: Tier) -> Vec<Program> {
     let small_ab = vec![Kind::Table, Kind::Func, Kind::Nil];
     let small_c = vec![Kind::Table, Kind::False, Kind::Typed, Kind::Json, Kind::Txt];
     match tier {
-        Tier::Quick => dag_sweep(tier, small_ab, small_c, 5, false),
+        Tier::Quick => dag_sweep(tier, small_ab, small_c, 6, false),
         Tier::Thorough => {
             // every value kind with a rotating configuration, then every configuration on the smaller kind menu
             let mut v = dag_sweep(
@@ -544,6 +552,8 @@ fn dag_programs(tier: Tier) -> Vec<Program> {
 
 fn dag_sweep(tier: Tier, kinds_ab: Vec<Kind>, kinds_c: Vec<Kind>, variants: usize, all_configs: bool) -> Vec<Program> {
     let mut out = Vec::new();
+    // quick: 6 variants in steps of 2 reach all 12 require positions on every edge set
+    let form_stride = if variants < FORMS { 2 } else { 1 };
     let edges_all: [(usize, usize); 6] = [(0, 1), (0, 2), (0, 3), (1, 2), (1, 3), (2, 3)];
     for mode in mode_menu() {
         for (li, layout) in layouts().iter().enumerate() {
@@ -579,7 +589,7 @@ fn dag_sweep(tier: Tier, kinds_ab: Vec<Kind>, kinds_c: Vec<Kind>, variants: usiz
                                             if *f == node && mask & (1 << ei) != 0 {
                                                 let list = &sp[&(*f, *t)];
                                                 let spelling = list[(ei + variant * 3 + li) % list.len()].clone();
-                                                edges.push(((ei + variant) % FORMS, spelling, kinds[*t]));
+                                                edges.push(((ei + variant * form_stride) % FORMS, spelling, kinds[*t]));
                                             }
                                         }
                                         files.push((names[node].clone(), module_source(&names[node], kinds[node], &edges, node == 0)));
@@ -746,6 +756,10 @@ fn detail_programs(tier: Tier) -> Vec<Program> {
             vec![(m, module_source(m, Kind::Table, &[(1, "./a".to_owned(), Kind::Table)], true)), ("src/a.lua", "local deps = {}\nlocal first = ...\nlocal n = select(\"#\", ...)\nreturn { name = \"a\", deps = deps, touch = function() return type(n) end }\n".to_owned())],
         ),
         (
+            "module reading its varargs only in its return",
+            vec![(m, module_source(m, Kind::Table, &[(1, "./a".to_owned(), Kind::Table), (0, "./b".to_owned(), Kind::Table)], true)), ("src/a.lua", "return { name = \"a\", count = select(\"#\", ...), deps = {} }\n".to_owned()), ("src/b.lua", "local deps = {}\nreturn (function(...) return { name = \"b\", deps = deps, n = select(\"#\", ...) } end)(...)\n".to_owned())],
+        ),
+        (
             "shadowed require is not a module require",
             vec![
                 (m, module_source(m, Kind::Table, &[(1, "./a".to_owned(), Kind::Table)], true)),
@@ -838,8 +852,8 @@ pub fn run(tier: Tier) -> Report {
     let mut report = Report::new("C05", "exploration", tier);
     report.rule = "(A) EVERY acyclic graph over an entry and three modules (63 edge sets with a non-empty entry) x value kind of each module (table with state, function with state, nil, false, string, \
         typed table with exported types, parenthesised call result; the last module also json / yaml / toml / txt data) x two layouts (flat; mixed .lua/.luau with a nested file and an init module folder) x \
-        path and luau require modes with a source/alias x 10 require positions (local, table field, immediately called function, statement then expression, string-call sugar inside select/type, \
-        shadowing local, lazily in a closure called twice, prefix position, loop body, vararg function) rotated with every spelling the reference resolver maps to the same file (extension, ././, zz/.., \
+        path and luau require modes with a source/alias x 12 require positions (local, table field, immediately called function, statement then expression, string-call sugar inside select/type, \
+        shadowing local, lazily in a closure called twice, prefix position, loop body, vararg function, numeric and generic for headers, if/while/repeat conditions with a return inside a function and a table key) rotated with every spelling the reference resolver maps to the same file (extension, ././, zz/.., \
         parent-relative, source/alias-prefixed, folder, @self) x generator and rule pipeline after bundling; (B) one module required through all its spellings at once from every other file; (C) all \
         cycles on up to three modules incl. through the entry and behind a DAG, and malformed modules (syntax error, no/empty/two-value return, missing file, malformed data, unknown or missing \
         extension, unknown source) in six require positions: an error naming the files, no output, no panic; (D) excluded requires; (E) module details (top-level varargs, shadowed require, names of \
